@@ -117,6 +117,14 @@ fn parse_stream_object(dict: Dictionary, lexer: &mut Lexer, r: &impl Resolve, ct
     })
 }
 
+/// An integer token; one beyond the 32 bit range is converted to a real number (ISO 32000-1, 7.3.3).
+fn parse_integer(lexeme: &Substr) -> Result<Primitive> {
+    match lexeme.to::<i32>() {
+        Ok(i) => Ok(Primitive::Integer(i)),
+        Err(_) => Ok(Primitive::Number(lexeme.to::<f32>()?)),
+    }
+}
+
 /// Decode the text of a name (after the `/`), resolving `#xx` escapes.
 fn parse_name(mut rest: &[u8]) -> Result<SmallString> {
     let s = if rest.contains(&b'#') {
@@ -206,13 +214,13 @@ fn _parse_with_lexer_ctx(lexer: &mut Lexer, r: &impl Resolve, ctx: Option<&Conte
                 check(flags, ParseFlags::INTEGER)?;
                 // We are probably in an array of numbers - it's not a reference anyway
                 lexer.set_pos(pos_bk); // (roll back the lexer first)
-                Primitive::Integer(t!(first_lexeme.to::<i32>()))
+                t!(parse_integer(&first_lexeme))
             }
         } else {
             check(flags, ParseFlags::INTEGER)?;
             // It is but a number
             lexer.set_pos(pos_bk); // (roll back the lexer first)
-            Primitive::Integer(t!(first_lexeme.to::<i32>()))
+            t!(parse_integer(&first_lexeme))
         }
     } else if let Some(s) = first_lexeme.real_number() {
         check(flags, ParseFlags::NUMBER)?;
